@@ -73,9 +73,16 @@ def line_lens(text):
     return [len(l) for l in text.splitlines()]
 
 
+def msg_class(text):
+    """Which diagnostic this is: its first words without digits/quoted parts (names the finding, not compared)."""
+    import re
+    t = re.sub(r"'[^']*'|\"[^\"]*\"|[-+]?\d+", "", str(text).split("\n")[0])
+    return " ".join(re.findall(r"[A-Za-z$_]+", t)[:5])
+
+
 def msg_proj(m):
     loc = m.location
-    d = {"file": fid(m.source_file), "sev": str(m.severity)}
+    d = {"file": fid(m.source_file), "sev": str(m.severity), "what": msg_class(m.message)}
     if loc is None:
         d.update(l1=-1, c1=-1, l2=-1, c2=-1, syn=False, noloc=True)
         return d
